@@ -8,7 +8,10 @@ Workload: sessions of 70 (quick tier) or 100 (thorough tier) packets (elaboratin
   link-management / isochronous-timestamp headers; all header words, sequence number, reserved bits, hub depth, delayed,
   deferred random; the header's own crc16/crc5 inputs are garbage (must be ignored).  Requests the two ways the link
   layer makes them: a `generate` strobe after which the header inputs are scrambled, or a level held until `done`; back
-  to back or spaced.  Payload stream: words valid until accepted, garbage in the unused lanes of the last word, data
+  to back or spaced.  Also headers of reserved types with bit 4 set (10000b, 10100b, 11100b and 11000b = DATA with bit 4:
+  none of them is a data header, nothing may follow the header), payload lengths 301..1020 (3 %) and the maximum-size
+  neighbourhood 1021..1024 (1 %), and payload streams with bubbles (30 % of multi-word payloads: the producer drops valid
+  for 1-3 cycles between two words, other fields don't-care/hostile meanwhile).  Payload stream: words valid until accepted, garbage in the unused lanes of the last word, data
   offered before or together with the request.  PHY `ready`: always / random p / pulse every k / bursty, plus stalls of 1-6
   cycles aimed at a chosen word (start framing, each header word, DPP start, first / last payload word, CRC word, END word).
 Monitors / oracle (rv/ref/c35_usb3link.py, written from USB 3.2 7.2.1; bit-serial CRCs validated against recorded packets):
@@ -22,9 +25,22 @@ Monitors / oracle (rv/ref/c35_usb3link.py, written from USB 3.2 7.2.1; bit-seria
          the CRC fields equal to the reference, and neither bad_packet nor bad_sequence; for data packets that are not
          aborted the data receiver must raise packet_good at least once, its header must match, and the bytes it offered
          before that must be the payload.
+  DataPacketTransmitter (data.py, the block that turns a payload stream into data header + stream for the transmitter):
+         stand-alone in the same harness, 60 packets per case (payload 1..64 bytes and send_zlp, parameters set early or with
+         the first word and scrambled once the stream has started, header accepted after 0-6 cycles, data_source.ready
+         random): every header offered must be DW0 = DATA | address<<25, DW1 = seq | direction<<7 | endpoint<<8 | length<<16,
+         DW2 = 0 with the parameters of that packet (length 0 for send_zlp); exactly one header per packet; the words leaving
+         data_source (valid & ready) == the words accepted on data_sink, in order, once (valid lanes, data in valid lanes,
+         first, last).  Packets are separated by idle cycles (the block needs them to see a packet boundary).
+  Scope of the receive half: the statement is about TRANSMIT framing ("receiving such a stream ... yields the same header and
+         payload with good CRCs"), so the receivers are only a second decoder for what the transmitter produced.  Their
+         reject paths (bad CRC, wrong sequence, damaged framing), their valid-gating and back-to-back behaviour are NOT
+         exercised here on purpose: they are what C37 (header receiver) and C40 (data receiver) decide.  An
+         accept-everything receiver would pass this check and fail those.
 Not judged: a later packet_bad or repeated packet_good of the data receiver (C40's business), the data receiver on aborted
-  packets, `done` timing beyond "not before the last word was accepted and within the bound", gaps in the payload stream
-  (the stream is held valid; the property quantifies over PHY ready patterns), `generate` while busy, reserved header types.
+  packets, `done` timing beyond "not before the last word was accepted and within the bound", a payload that
+  only becomes valid after the header went out (by the block's documented contract that means zero length: "late" data is
+  not a defined input), `generate` while busy.
 Deviation from DESIGN section 7: the statement's "END symbols padding to the word boundary followed by END-END-END-EPF" is
   read as USB 3.2 defines the DPP end framing and as the recorded packets in the repository's tests show it: END END END
   EPF follows the CRC-32 directly and the rest of the last word is logical idle.  The receivers are fed by replay and
@@ -45,12 +61,13 @@ RULE = ("case = session of 70 (quick) or 100 (thorough) packets (60% data header
         "words; transmitted words replayed into the real header and data receivers; non-trivial = all four payload alignments, "
         ">=1 zero-length, >=1 aborted packet and stalls on CRC and END words; distinct = hash of all stimulus")
 REQUIRED_BINS = ["payload_len_mod4_0", "payload_len_mod4_1", "payload_len_mod4_2", "payload_len_mod4_3", "zero_length_payload",
-                 "single_word_payload", "long_payload", "delayed_abort", "delayed_abort_with_data_offered", "header_tp", "header_lmp", "header_itp",
+                 "single_word_payload", "long_payload", "delayed_abort", "delayed_abort_with_data_offered", "header_tp", "header_lmp", "header_itp", "header_reserved_type_bit4", "header_type_0x18",
+                 "payload_301_to_1020", "payload_stream_with_bubbles", "dpt_packets", "dpt_zlp", "dpt_source_stalled", "dpt_header_accept_delayed",
                  "request_strobe_header_scrambled", "request_level", "back_to_back", "data_offered_early", "data_offered_with_request",
                  "stall_hpstart", "stall_header_word", "stall_dw3", "stall_dppstart", "stall_first_payload_word", "stall_mid_payload_word",
                  "stall_last_payload_word", "stall_crc_word", "stall_end_word", "stall_abort_word", "garbage_in_unused_lanes",
                  "rx_header_checked", "rx_payload_checked", "rx_zero_length_good"]
-REQUIRED_EVENTS = ["packets_requested", "packets_completed", "words_transferred", "words_compared", "payload_words_accepted",
+REQUIRED_EVENTS = ["dpt_words_out", "dpt_headers", "packets_requested", "packets_completed", "words_transferred", "words_compared", "payload_words_accepted",
                    "done_strobes", "rx_new_packet_strobes", "rx_packet_good_strobes", "rx_payload_bytes_compared", "rx_words_replayed"]
 ASSUMPTIONS = ["a request is accepted when `generate` is sampled high while the transmitter is idle; the header inputs are taken from that cycle",
                "for a data header the payload stream is valid no later than the request and stays valid until each word is accepted; "
@@ -67,7 +84,8 @@ def gen_packet(rng, tier):
         p["type"] = L.HDR_TYPE_DATA
         p["delayed"] = 1
     else:
-        p["type"] = rng.choice([L.HDR_TYPE_TP, L.HDR_TYPE_LMP, L.HDR_TYPE_ITP])
+        p["type"] = rng.choice([L.HDR_TYPE_TP, L.HDR_TYPE_LMP, L.HDR_TYPE_ITP, L.HDR_TYPE_TP, L.HDR_TYPE_LMP, L.HDR_TYPE_ITP,
+                                0x10, 0x14, 0x1C, 0x18, 0x18])     # reserved types with bit 4 set; 0x18 differs from DATA in bit 4 only
     n = 0
     if p["type"] == L.HDR_TYPE_DATA:
         x = rng.random()
@@ -79,6 +97,8 @@ def gen_packet(rng, tier):
             n = rng.randint(17, 70)
         elif x > (0.985 if tier == "thorough" else 0.99):    # both tiers: maximum-size boundary
             n = rng.choice([1024, 1023, 1022, 1021])
+        elif x > 0.97:
+            n = rng.randint(301, 1020)
         else:
             n = rng.randint(71, 300)
         p["payload"] = bytes(rng.getrandbits(8) for _ in range(n))
@@ -135,6 +155,17 @@ def gen_packet(rng, tier):
                 d |= rng.getrandbits(32) & ~((1 << (8 * len(chunk))) - 1) & 0xFFFFFFFF
                 p["garbage_lanes"] = True
             stream.append((d, lanes, int(k == 0) if rng.random() < 0.9 else rng.randrange(2), int(k + 4 >= n)))
+    # bubbles: the producer takes its valid away for 1-3 cycles between two words (never before the first word: a payload
+    # that is not valid when the header has gone out means "zero length" by the block's contract)
+    p["bubbles"] = False
+    if len(stream) >= 2 and not p["delayed"] and rng.random() < 0.3:
+        gappy = [stream[0]]
+        for wd in stream[1:]:
+            if rng.random() < 0.35:
+                gappy += ["gap"] * rng.randint(1, 3)
+                p["bubbles"] = True
+            gappy.append(wd)
+        stream = gappy
     p["stream"] = stream
     # aimed stall
     p["stall"] = None
@@ -172,7 +203,7 @@ def run_case(rng, tier, res):
     from amaranth import Module, Elaboratable, Signal, ResetInserter
     from luna.gateware.usb.usb3.link.transmitter import RawPacketTransmitter
     from luna.gateware.usb.usb3.link.receiver import RawHeaderPacketReceiver
-    from luna.gateware.usb.usb3.link.data import DataPacketReceiver
+    from luna.gateware.usb.usb3.link.data import DataPacketReceiver, DataPacketTransmitter
 
     L.selftest()
 
@@ -181,6 +212,7 @@ def run_case(rng, tier, res):
             self.tx = RawPacketTransmitter()
             self.hrx = RawHeaderPacketReceiver()
             self.drx = DataPacketReceiver()
+            self.dpt = DataPacketTransmitter()
             self.rx_rst = Signal()
             self.rx_valid = Signal()
             self.rx_data = Signal(32)
@@ -189,6 +221,7 @@ def run_case(rng, tier, res):
         def elaborate(self, platform):
             m = Module()
             m.submodules.tx = self.tx
+            m.submodules.dpt = self.dpt
             m.submodules.hrx = ResetInserter({"ss": self.rx_rst})(self.hrx)
             m.submodules.drx = ResetInserter({"ss": self.rx_rst})(self.drx)
             for rx in (self.hrx, self.drx):
@@ -287,6 +320,19 @@ def run_case(rng, tier, res):
             return "end_framing_wrong"
         return "word_wrong"
 
+    def viol(p, i, mech, detail):
+        """narrow classification of the two known transmitter findings; everything else keeps its own mechanism"""
+        if p is not None and p.get("bubble_hit") and (i is None or i >= 6):
+            mech = "payload_stream_bubble_corrupts_packet"
+        elif p is not None and p["type"] == 0x18 and mech == "unexpected_word" and T["pos"] >= 5:
+            mech = "dpp_appended_to_header_of_reserved_type_0x18"
+        else:
+            res.violation(mech, detail)
+            return
+        if not p.get("known_reported"):          # one witness per packet is enough (the per-case list is capped)
+            p["known_reported"] = True
+            res.violation(mech, detail)
+
     def tx_monitor(b):
         generate, done, valid, ready, data, ctrl, dsv, dsr, dsd, dsl = (b.get(s) for s in txs)
         t = b.cycle
@@ -304,17 +350,20 @@ def run_case(rng, tier, res):
             if not T["feed"]:
                 res.violation("payload_word_accepted_but_none_offered", "cycle %d" % t)
             else:
-                T["feed"].pop(0)
+                while T["feed"] and T["feed"][0] == "gap":
+                    T["feed"].pop(0)
+                if T["feed"]:
+                    T["feed"].pop(0)
         if valid and ready:
             res.event("words_transferred")
             if p is None or T["pos"] >= len(p["words"]):
-                res.violation("unexpected_word", "cycle %d: word %#010x ctrl=%x transferred, no packet word is due (packet %d)" % (t, data, ctrl, T["k"]))
+                viol(p, None, "unexpected_word", "cycle %d: word %#010x ctrl=%x transferred, no packet word is due (packet %d)" % (t, data, ctrl, T["k"]))
             else:
                 i = T["pos"]
                 wd, wc = p["words"][i]
                 res.event("words_compared")
                 if (data, ctrl) != (wd, wc):
-                    res.violation(classify(p, i, data, ctrl, wd, wc),
+                    viol(p, i, classify(p, i, data, ctrl, wd, wc),
                                   "cycle %d packet#%d type=%#x len=%d delayed=%d word %d/%d (%s): got %#010x ctrl=%x expected %#010x ctrl=%x; stall=%r ready=%r" % (
                                       t, T["k"], p["type"], p["n"], p["delayed"], i, len(p["words"]), p["roles"][i], data, ctrl, wd, wc, p["stall"], profile))
                 T["observed"].append((data, ctrl))
@@ -325,7 +374,7 @@ def run_case(rng, tier, res):
                 res.violation("done_without_packet", "cycle %d" % t)
             else:
                 if T["pos"] < len(p["words"]):
-                    res.violation("done_before_last_word", "cycle %d packet#%d: done with %d of %d words transferred (next role %s)" % (
+                    viol(p, T["pos"], "done_before_last_word", "cycle %d packet#%d: done with %d of %d words transferred (next role %s)" % (
                         t, T["k"], T["pos"], len(p["words"]), p["roles"][T["pos"]]))
                 p["done"] = True
                 res.event("packets_completed")
@@ -333,7 +382,7 @@ def run_case(rng, tier, res):
                 rxq.append({"p": p, "k": T["k"], "words": list(T["observed"])})
                 T["observed"] = []
                 if p["type"] == L.HDR_TYPE_DATA and not p["delayed"] and T["feed"]:
-                    res.violation("payload_words_not_consumed", "packet#%d len=%d: %d payload words left when done" % (T["k"], p["n"], len(T["feed"])))
+                    viol(p, None, "payload_words_not_consumed", "packet#%d len=%d: %d payload words left when done" % (T["k"], p["n"], len(T["feed"])))
         if generate and was_idle:
             T["k"] += 1
             res.event("packets_requested")
@@ -366,7 +415,6 @@ def run_case(rng, tier, res):
                 T["feed"] = []
             set_header(p)
             b.set(tx.generate, 1)
-            update_feed()
             yield
             if p["style"] == "strobe":
                 b.set(tx.generate, 0)
@@ -400,7 +448,14 @@ def run_case(rng, tier, res):
             yield
 
     def update_feed():
-        if T["feed"]:
+        if T["feed"] and T["feed"][0] == "gap":
+            # one bubble cycle: not valid, every other field is a don't-care (driven hostile)
+            T["feed"].pop(0)
+            T["bubble_cycles"] = T.get("bubble_cycles", 0) + 1
+            if T["cur"] is not None:
+                T["cur"]["bubble_hit"] = True
+            b.set(ds.valid, 0); b.set(ds.data, rng.getrandbits(32)); b.set(ds.last, rng.randrange(2)); b.set(ds.first, rng.randrange(2))
+        elif T["feed"]:
             d, lanes, first, last = T["feed"][0]
             b.set(ds.valid, lanes); b.set(ds.data, d); b.set(ds.first, first); b.set(ds.last, last)
         else:
@@ -498,7 +553,7 @@ def run_case(rng, tier, res):
                 res.violation("rx_header_crc_fields_differ", ctx + " crc16=%#x crc5=%#x" % (c16, c5))
         if p["type"] == L.HDR_TYPE_DATA and not p["delayed"]:
             if not job["good"]:
-                res.violation("rx_data_packet_not_good", ctx + " packet_bad strobes=%d bytes=%d" % (job["drx_bad"], len(job["bytes"])))
+                viol(p, None, "rx_data_packet_not_good", ctx + " packet_bad strobes=%d bytes=%d" % (job["drx_bad"], len(job["bytes"])))
             else:
                 t, hdr, nbytes = job["good"][0]
                 got = bytes(job["bytes"][:nbytes])
@@ -507,12 +562,132 @@ def run_case(rng, tier, res):
                 if p["n"] == 0:
                     res.bin("rx_zero_length_good")
                 if got != p["payload"]:
-                    res.violation("rx_payload_differs", ctx + " got %d bytes %s want %d bytes %s" % (len(got), got[:16].hex(), p["n"], p["payload"][:16].hex()))
+                    viol(p, None, "rx_payload_differs", ctx + " got %d bytes %s want %d bytes %s" % (len(got), got[:16].hex(), p["n"], p["payload"][:16].hex()))
                 if hdr != want:
                     res.violation("rx_data_header_differs", ctx + " got=%r want=%r" % (hdr, want))
         elif p["type"] != L.HDR_TYPE_DATA and job["good"]:
             res.violation("rx_good_for_non_data_header", ctx)
 
+    # ------------------------------------------------------------------------------------------ DataPacketTransmitter
+    # (the block that produces the data header for a payload stream and hands the stream on; stand-alone, own drivers)
+    dpt = h.dpt
+    dsi, dso, dhs = dpt.data_sink, dpt.data_source, dpt.header_source
+    dpt_sigs = [dsi.valid, dsi.ready, dsi.data, dsi.first, dsi.last, dso.valid, dso.ready, dso.data, dso.first, dso.last,
+                dhs.valid, dhs.ready, dhs.header.dw0, dhs.header.dw1, dhs.header.dw2]
+    b.watch(*dpt_sigs)
+    dpt_plan = []
+    for _ in range(60):
+        n = rng.choice([0, rng.randint(1, 12), rng.randint(1, 12), rng.randint(13, 64)])
+        dpt_plan.append({"n": n, "payload": bytes(rng.getrandbits(8) for _ in range(n)), "seq": rng.randrange(32), "ep": rng.randrange(16),
+                         "addr": rng.randrange(128), "dir": rng.randrange(2), "params_early": rng.randrange(3), "hdr_delay": rng.choice([0, 0, 1, 3, 6])})
+    res.sig([(q["n"], q["payload"], q["seq"], q["ep"], q["addr"], q["dir"]) for q in dpt_plan])
+    P = {"queue": [], "hdr_k": 0, "cur": None, "src_ready_p": rng.choice([1.0, 0.7, 0.4])}
+
+    def lanes_mask(v):
+        return sum(0xFF << (8 * i) for i in range(4) if (v >> i) & 1)
+
+    def dpt_monitor(b):
+        (iv, ir, idat, ifirst, ilast, ov, ordy, odat, ofirst, olast, hv, hr, hdw0, hdw1, hdw2) = (b.get(x) for x in dpt_sigs)
+        t = b.cycle
+        if ov and not ordy:
+            res.bin("dpt_source_stalled")
+        if ov and ordy:
+            res.event("dpt_words_out")
+            if not P["queue"]:
+                res.violation("dpt_payload_word_unexpected", "cycle %d: word %#010x lanes=%x on data_source, nothing pending" % (t, odat, ov))
+            else:
+                want = P["queue"].pop(0)
+                got = (odat & lanes_mask(ov), ov, ofirst, olast)
+                if got != want:
+                    res.violation("dpt_payload_word_wrong", "cycle %d: data_source word %r, expected %r (data&lanes, lanes, first, last)" % (t, got, want))
+        if iv and ir:
+            P["queue"].append((idat & lanes_mask(iv), iv, ifirst, ilast))
+        if hv and hr:
+            res.event("dpt_headers")
+            k = P["hdr_k"]
+            P["hdr_k"] += 1
+            if k >= len(dpt_plan):
+                res.violation("dpt_header_extra", "cycle %d: header #%d but only %d packets were offered" % (t, k, len(dpt_plan)))
+            else:
+                q = dpt_plan[k]
+                # USB 3.2 8.6 data packet header: DW0 type[4:0]=01000b, route string 0 (device -> host), address[31:25];
+                # DW1 seq[4:0], direction[7], endpoint[11:8], data length[31:16]; DW2 0
+                want = (L.HDR_TYPE_DATA | (q["addr"] << 25), q["seq"] | (q["dir"] << 7) | (q["ep"] << 8) | (q["n"] << 16), 0)
+                if (hdw0, hdw1, hdw2) != want:
+                    res.violation("dpt_header_field_wrong", "cycle %d packet#%d %r: header %08x %08x %08x expected %08x %08x %08x" % (
+                        (t, k, {kk: q[kk] for kk in ("n", "seq", "ep", "addr", "dir")}, hdw0, hdw1, hdw2) + want))
+                q["hdr_done"] = True
+
+    def dpt_driver():
+        yield
+        for k, q in enumerate(dpt_plan):
+            def params():
+                b.set(dpt.sequence_number, q["seq"]); b.set(dpt.endpoint_number, q["ep"]); b.set(dpt.data_length, q["n"])
+                b.set(dpt.address, q["addr"]); b.set(dpt.direction, q["dir"])
+            for _ in range(q["params_early"]):
+                params()
+                yield
+            params()
+            if q["n"] == 0:
+                res.bin("dpt_zlp")
+                b.set(dpt.send_zlp, 1)
+                yield
+                b.set(dpt.send_zlp, 0)
+            else:
+                res.bin("dpt_packets")
+                n = q["n"]
+                for off in range(0, n, 4):
+                    chunk = q["payload"][off:off + 4]
+                    d = sum(bv << (8 * i) for i, bv in enumerate(chunk)) | (rng.getrandbits(32) & ~((1 << (8 * len(chunk))) - 1) & 0xFFFFFFFF)
+                    b.set(dsi.valid, (1 << len(chunk)) - 1); b.set(dsi.data, d); b.set(dsi.first, int(off == 0)); b.set(dsi.last, int(off + 4 >= n))
+                    for _w in range(400):
+                        yield
+                        if b.get(dsi.ready) and b.get(dsi.valid):
+                            break
+                    else:
+                        res.violation("dpt_payload_word_never_accepted", "packet#%d word at offset %d" % (k, off))
+                        return
+                    if off == 0:
+                        # parameters are latched when the stream starts; everything but the (live) address may change now
+                        b.set(dpt.sequence_number, rng.randrange(32)); b.set(dpt.endpoint_number, rng.randrange(16))
+                        b.set(dpt.data_length, rng.randrange(1025)); b.set(dpt.direction, rng.randrange(2))
+                b.set(dsi.valid, 0)
+            # wait until the header was taken and the stream has drained, then leave the mandatory gap between packets
+            for _w in range(600):
+                if q.get("hdr_done") and not P["queue"]:
+                    break
+                yield
+            else:
+                res.violation("dpt_packet_never_completes", "packet#%d n=%d: header taken=%r, %d words pending" % (k, q["n"], q.get("hdr_done"), len(P["queue"])))
+                return
+            for _ in range(rng.randint(3, 6)):
+                yield
+
+    def dpt_consumer():
+        wait = None
+        while True:
+            b.set(dso.ready, 1 if rng.random() < P["src_ready_p"] else 0)
+            hv, hr = b.get(dhs.valid), b.get(dhs.ready)
+            if hv and hr:
+                b.set(dhs.ready, 0)
+                wait = None
+            elif hv:
+                if wait is None:
+                    k = min(P["hdr_k"], len(dpt_plan) - 1)
+                    wait = dpt_plan[k]["hdr_delay"]
+                    if wait:
+                        res.bin("dpt_header_accept_delayed")
+                if wait == 0:
+                    b.set(dhs.ready, 1)
+                else:
+                    wait -= 1
+            else:
+                b.set(dhs.ready, 0)
+            yield
+
+    b.add_monitor(dpt_monitor)
+    b.add_driver(dpt_driver(), main=True)
+    b.add_driver(dpt_consumer(), main=False)
     b.add_monitor(tx_monitor)
     b.add_monitor(rx_monitor)
     b.add_driver(tx_driver(), main=True)
@@ -523,6 +698,8 @@ def run_case(rng, tier, res):
     res.cycles = b.cycle
     if b.hit_max_cycles:
         res.violation("case_did_not_finish", "simulation hit max_cycles")
+    if P["hdr_k"] != len(dpt_plan) and not any(v["mechanism"].startswith("dpt_") for v in res.violations):
+        res.violation("dpt_header_missing", "%d packets offered, %d headers produced" % (len(dpt_plan), P["hdr_k"]))
     if not T["stuck"]:
         p = T["cur"]
         if p is not None and T["pos"] < len(p["words"]):
@@ -548,8 +725,13 @@ def run_case(rng, tier, res):
                     res.bin("long_payload")
                 if p.get("garbage_lanes"):
                     res.bin("garbage_in_unused_lanes")
+            if p["n"] > 300 and not p["delayed"]:
+                res.bin("payload_301_to_1020" if p["n"] <= 1020 else "payload_max_size")
+            if p["bubbles"] and not p["delayed"]:
+                res.bin("payload_stream_with_bubbles")
         else:
-            res.bin({L.HDR_TYPE_TP: "header_tp", L.HDR_TYPE_LMP: "header_lmp", L.HDR_TYPE_ITP: "header_itp"}[p["type"]])
+            res.bin({L.HDR_TYPE_TP: "header_tp", L.HDR_TYPE_LMP: "header_lmp", L.HDR_TYPE_ITP: "header_itp", 0x10: "header_reserved_type_bit4",
+                     0x14: "header_reserved_type_bit4", 0x1C: "header_reserved_type_bit4", 0x18: "header_type_0x18"}[p["type"]])
     bn = res.bins
     res.nontrivial = bool(all(bn.get("payload_len_mod4_%d" % i) for i in range(4)) and bn.get("zero_length_payload") and bn.get("delayed_abort")
                           and bn.get("stall_crc_word") and bn.get("stall_end_word"))
